@@ -8,8 +8,13 @@ from pydbml.renderer.sql.default.renderer import DefaultSQLRenderer
 from pydbml.renderer.sql.default.utils import comment_to_sql, get_full_name_for_sql
 
 
+def escape_braces(text: str) -> str:
+    """Protect braces of user text (names, comments) from the `{c}` template substitution."""
+    return text.replace('{', '{{').replace('}', '}}')
+
+
 def col_names(cols: List[Column]) -> str:
-    return ', '.join(f'"{c.name}"' for c in cols)
+    return escape_braces(', '.join(f'"{c.name}"' for c in cols))
 
 
 def validate_for_sql(model: Reference):
@@ -19,10 +24,10 @@ def validate_for_sql(model: Reference):
 
 
 def generate_inline_sql(model: Reference, source_col: List[Column], ref_col: List[Column]) -> str:
-    result = comment_to_sql(model.comment) if model.comment else ''
+    result = escape_braces(comment_to_sql(model.comment)) if model.comment else ''
     result += (
         f'{{c}}FOREIGN KEY ({col_names(source_col)}) '  # type: ignore
-        f'REFERENCES {get_full_name_for_sql(ref_col[0].table)} ({col_names(ref_col)})'  # type: ignore
+        f'REFERENCES {escape_braces(get_full_name_for_sql(ref_col[0].table))} ({col_names(ref_col)})'  # type: ignore
     )
     if model.on_update:
         result += f' ON UPDATE {model.on_update.upper()}'
@@ -32,11 +37,11 @@ def generate_inline_sql(model: Reference, source_col: List[Column], ref_col: Lis
 
 
 def generate_not_inline_sql(model: Reference, source_col: List['Column'], ref_col: List['Column']):
-    result = comment_to_sql(model.comment) if model.comment else ''
+    result = escape_braces(comment_to_sql(model.comment)) if model.comment else ''
     result += (
-        f'ALTER TABLE {get_full_name_for_sql(source_col[0].table)}'  # type: ignore
+        f'ALTER TABLE {escape_braces(get_full_name_for_sql(source_col[0].table))}'  # type: ignore
         f' ADD {{c}}FOREIGN KEY ({col_names(source_col)})'
-        f' REFERENCES {get_full_name_for_sql(ref_col[0].table)} ({col_names(ref_col)})' # type: ignore
+        f' REFERENCES {escape_braces(get_full_name_for_sql(ref_col[0].table))} ({col_names(ref_col)})' # type: ignore
     )
     if model.on_update:
         result += f' ON UPDATE {model.on_update.upper()}'
@@ -47,7 +52,7 @@ def generate_not_inline_sql(model: Reference, source_col: List['Column'], ref_co
 
 def generate_many_to_many_sql(model: Reference) -> str:
     join_table = model.join_table
-    table_sql = join_table.sql  # type: ignore
+    table_sql = escape_braces(join_table.sql)  # type: ignore
 
     n = len(model.col1)
     ref1_sql = generate_not_inline_sql(model, join_table.columns[:n], model.col1)  # type: ignore
